@@ -65,10 +65,21 @@ class TooLarge(Unsupported):
 SIZE_LIMIT = 300000
 
 
+WORK = [0, None]         # term-pair products since the last reset, optional cap (set by a rule around one evaluation)
+
+
+def work_reset(cap=None):
+    WORK[0], WORK[1] = 0, cap
+
+
 def _budget(*pairs):
     for p, q in pairs:
-        if len(p.t) * len(q.t) > SIZE_LIMIT:
+        w = len(p.t) * len(q.t)
+        if w > SIZE_LIMIT:
             raise TooLarge(f"formula too large ({len(p.t)} x {len(q.t)} terms)")
+        WORK[0] += w
+    if WORK[1] is not None and WORK[0] > WORK[1]:
+        raise TooLarge(f"evaluation outgrew its work budget ({WORK[0]} term products)")
 
 
 def _guarded(op, a, b):
